@@ -122,6 +122,9 @@ pub fn run(ctx: &Ctx) -> Report {
     let sweep_cap = ctx.pick(1500u64, 6000);
     let ops = { let mut o = all_single_byte_ops(); o.extend(multibyte_ops()); o };
     let spaces: Vec<ProgSpace> = vec![
+        // big operands (600/43/129 bytes): early in-operator budget checks whose estimate grows with operand
+        // length are only distinguishable from the final charge when the operands are long
+        p1b(ops.clone(), ctx.pick(2, 3)),
         p1("P1", ops, ctx.pick(vec![vec![], vec![1], vec![0x80], vec![0x00, 0x80]], a6()), vec![vec![2u8], vec![11]], ctx.pick(2, 3)),
         p2(classic_ops(), ctx.pick(vec![vec![1], vec![0x80]], vec![vec![], vec![1], vec![0x80]])),
         p4(ctx.pick(12, 60), false),
@@ -132,8 +135,13 @@ pub fn run(ctx: &Ctx) -> Report {
     let flagsets: Vec<ClvmFlags> = vec![ClvmFlags::empty(), ClvmFlags::NEW_COST_MODEL, MEMPOOL_MODE, MEMPOOL_MODE | ClvmFlags::NEW_COST_MODEL, ClvmFlags::ENABLE_GC | ClvmFlags::MALACHITE];
     let seed = ctx.seed;
     let mut notes = vec![];
+    // P1b additionally runs with every operator family enabled outside a guard
+    let mut flagsets_ext = flagsets.clone();
+    flagsets_ext.push(ClvmFlags::ENABLE_SHA256_TREE | ClvmFlags::ENABLE_KECCAK_OPS_OUTSIDE_GUARD | ClvmFlags::ENABLE_SECP_OPS);
+    flagsets_ext.push(ClvmFlags::ENABLE_SHA256_TREE | ClvmFlags::ENABLE_KECCAK_OPS_OUTSIDE_GUARD | ClvmFlags::ENABLE_SECP_OPS | ClvmFlags::NEW_COST_MODEL);
     for sp in &spaces {
         let t_space = std::time::Instant::now();
+        let flagsets = if sp.name.starts_with("P1b") { &flagsets_ext } else { &flagsets };
         let nf = flagsets.len() as u64;
         let acc = par_for(ctx, sp.total * nf, 64, |i| { let (p, e) = sp.at(i / nf); format!("prog={} env={} flags={:#x}", p.hex(), e.hex(), flagsets[(i % nf) as usize].bits()) }, |i, acc| {
             let (p, e) = sp.at(i / nf);
@@ -155,6 +163,6 @@ pub fn run(ctx: &Ctx) -> Report {
     rep.states = rep.acc.get("cases");
     rep.transitions = rep.acc.get("runs");
     rep.traces = rep.acc.get("programs_succeeding");
-    rep.rule = format!("every program of P1 (all assigned, unassigned and multi-byte opcodes), P2, P4 (families, every n) and P5 (guards) x 5 flag sets that succeeds with unlimited budget: if its cost C <= {sweep_cap} EVERY budget 1..=C+2 plus 2^32, 2^63, u64::MAX-{{0,1,2}}; otherwise every threshold extracted from the logged budget comparisons (hook H2) +-1. Oracles: success => cost <= budget; all successes identical; successes upward closed; failures below are exactly 'cost exceeded'; smallest succeeding budget == C unless a grandfathered guard may be involved. The log-based threshold prediction is validated against the full sweep on every cheap program. Non-trivial = programs that show at least two budget classes.");
+    rep.rule = format!("every program of P1 and P1b (all assigned, unassigned and multi-byte opcodes; P1b = operands of 600/43/129 bytes, also with the sha256tree/keccak/secp families enabled), P2, P4 (families, every n) and P5 (guards) x 5 flag sets that succeeds with unlimited budget: if its cost C <= {sweep_cap} EVERY budget 1..=C+2 plus 2^32, 2^63, u64::MAX-{{0,1,2}}; otherwise every threshold extracted from the logged budget comparisons (hook H2) +-1. Oracles: success => cost <= budget; all successes identical; successes upward closed; failures below are exactly 'cost exceeded'; smallest succeeding budget == C unless a grandfathered guard may be involved. The log-based threshold prediction is validated against the full sweep on every cheap program. Non-trivial = programs that show at least two budget classes.");
     rep
 }
